@@ -5,7 +5,9 @@
 (* The fixed schema of this module (rendered by the harness):                   *)
 (*   lib   := item+                                                             *)
 (*   item  := @id:int (required) @flag:boolean?  title:string, qty:int,         *)
-(*            note:string?, sub?                                                *)
+(*            note:string?, sub?, any{0,2} of another namespace, STRICT         *)
+(*            (x:known has a global declaration, x:unk has none; an item that   *)
+(*            has a note also carries one x:known)                              *)
 (*   sub   := qty:decimal+            (same local name, other declaration)      *)
 (* A document is a flat list of nodes [path, name, decl, attrs, text] in        *)
 (* document order; path = child indexes from the root; decl names the           *)
@@ -20,7 +22,7 @@ EXTENDS XsdBase, TLC, Json
 ItemCfg == [flag : BOOLEAN, note : BOOLEAN, sub : 0..2]
 ItemDevs == {"none", "badqty", "missingtitle", "missingqty", "extrachild", "extrafirst", "swap",
              "badid", "missingid", "bogusattr", "bogusontitle", "badflag",
-             "badsubqty", "emptysub", "extrainsub", "textinitem"}
+             "badsubqty", "emptysub", "extrainsub", "textinitem", "unknownext"}
 RootDevs == {"none", "extrainroot", "extrafirstinroot", "noitems", "bogusonroot"}
 
 Node(p, name, decl, attrs, text) == [path |-> p, name |-> name, decl |-> decl, attrs |-> attrs, text |-> text]
@@ -32,12 +34,14 @@ ItemKids(c, d) ==
       N == IF c.note THEN <<<<"note", "note", "ok">>>> ELSE <<>>
       S == IF c.sub > 0 THEN <<<<"sub", "sub", "-">>>> ELSE <<>>
       Z == <<"zzz", "none", "-">>
+      E == IF c.note THEN <<<<"ext", "wild", "-">>>> ELSE <<>>        \* admitted by the strict wildcard
+      U == IF d = "unknownext" THEN <<<<"unk", "none", "-">>>> ELSE <<>>   \* no declaration to be strict with
       base == CASE d = "missingtitle" -> <<Q>>
                 [] d = "missingqty"   -> <<T>>
                 [] d = "swap"         -> <<Q, T>>
                 [] d = "extrafirst"   -> <<Z, T, Q>>
                 [] OTHER              -> <<T, Q>>
-  IN base \o N \o S \o (IF d = "extrachild" THEN <<Z>> ELSE <<>>)
+  IN base \o N \o S \o E \o U \o (IF d = "extrachild" THEN <<Z>> ELSE <<>>)
 
 SubKids(c, d) ==
   LET n == IF d = "emptysub" THEN 0 ELSE c.sub
@@ -76,6 +80,7 @@ ItemTarget(p, c, d) ==
   LET ks == ItemKids(c, d) IN
   CASE d = "badqty"       -> Append(p, Index(ks, "qty"))
     [] d \in {"extrachild", "extrafirst"} -> Append(p, Index(ks, "zzz"))
+    [] d = "unknownext"   -> Append(p, Index(ks, "unk"))
     [] d = "swap"         -> Append(p, Index(ks, "title"))
     [] d = "bogusontitle" -> Append(p, Index(ks, "title"))
     [] d = "badsubqty"    -> Append(Append(p, Index(ks, "sub")), 1)
